@@ -224,6 +224,21 @@ def layer1(text, rot_i, trans, opt=()):
         if diffs:
             keys = [d["key"] for d in diffs]
             sig = f8_sig(entries, keys)
+            if sig is None:
+                # open finding F21: the recognised groups of a hetero residue differ between the frames (ring perception
+                # follows the bond-list order); then the centre of its coupled system, and with it the desolvation of
+                # its remaining groups, differs under common_charge_centre
+                changed = set()
+                for k in set(i0) ^ set(it):
+                    g = i0.get(k) or it.get(k)
+                    if g["hetatm"] and g["type"] != "ION":
+                        changed.add((g["chain"], g["resnum"]))
+                by_key = {}
+                for k, g in list(i0.items()) + list(it.items()):
+                    by_key.setdefault(k[0], g)
+                if changed and all(k in by_key and by_key[k]["hetatm"] and by_key[k]["type"] != "ION"
+                                   and (by_key[k]["chain"], by_key[k]["resnum"]) in changed for k in keys):
+                    sig = "ligand-typing-frame"
             if sig is None and all(centre_tie(r0, entries, k, c) for k in keys):
                 labels.append("cutoff-tie")
                 continue
